@@ -1493,7 +1493,7 @@ Proof.
       * change (k_kind (from_list_class n)) with KToMany. unfold hit_return, items_dict.
         rewrite Hout, (fill_value_dict n l Hl). reflexivity.
       * split; [reflexivity|]. split; [exists (VList l); reflexivity|]. split; [exact Hos|]. split; [reflexivity|].
-        cbn [n_cached]. intros c Hc'. rewrite Ecache in Hc'. injection Hc' as <-. exists l. auto.
+        cbn [n_cached n_out]. intros c Hc'. injection Hc' as <-. exists l. auto.
     + intro Hne. contradiction.
   - cbn [forallb chan_ready list_chan c_value c_hint is_data admits union_admits existsb atom_admits andb orb negb].
     cbn [on_run k_runner from_list_class value_dict map list_chan c_label c_value iterate].
@@ -1517,7 +1517,7 @@ Proof.
   intro H. destruct (instantiate_channels _ _ _ _ H) as [Hc [Hs [Ho [Hf [Hcache _]]]]].
   split; [exact Hc|]. split.
   - unfold in_sigs in Hs. simpl in Hs. destruct (n_in nd) as [|c [|c2 r]]; try discriminate.
-    injection Hs as Hs. destruct c as [lb h v]. unfold chan_sig in Hs. simpl in Hs. injection Hs as -> ->.
+    destruct c as [lb h v]. simpl in Hs. unfold chan_sig in Hs. simpl in Hs. injection Hs as -> ->.
     exists v. reflexivity.
   - split; [exact Ho|]. split; [exact Hf|]. intros c Hc'. rewrite Hcache in Hc'. discriminate.
 Qed.
